@@ -199,4 +199,6 @@ def run(prog, rep):
     rep.attempt(new_layout, ct, cd, rep)
     rep.attempt(open_checks, ct, cd, rep)
     rep.attempt(copy_direction, ct, rep)
+    # copy() copies by path: it is byte-identical to the source's content only if mutators leave nothing pending in a buffer
+    rep.attempt(M.flush_on_exit, ct, rep, rule="copy-sees-flushed-file")
     rep.not_decided += ["the check-then-create race against another process", "symlinked paths"]
